@@ -44,7 +44,7 @@ RULE = ('per kernel, boundary-directed inputs generated from its documented prec
         'below the largest mode, one-bin edges, interpolation one ulp inside the end points) plus random ones; each '
         'run on the compiled kernel under NUMBA_BOUNDSCHECK=1 and, for serial kernels, as py_func on '
         'index-recording arrays; non-trivial = the kernel touched at least one element; distinct by (kernel, input)')
-TRUSTED = ['NUMBA_BOUNDSCHECK=1 turns every out-of-range access of a compiled kernel into an exception',
+TRUSTED = ['NUMBA_BOUNDSCHECK=1 / boundscheck=True turns every out-of-range access of a SERIAL compiled kernel into an exception; for parallel=True kernels the stores inside prange bodies are not instrumented (probed), so each of them is also compiled serially with boundscheck=True from the same py_func and run on the same cases',
            'numba code generation, np.empty sizes and LLVM are trusted: this is index arithmetic, not the machine']
 ASSUMPTIONS = ['kernels outside the anchored files (zcv, shear, menv internals) are covered only by observation (a)']
 
@@ -57,10 +57,12 @@ def _oob_exc(e):
 class Runner:
     def __init__(self, ctx):
         self.ctx = ctx
+        self.suffix = ''
 
     def run(self, kernel, case, fn, nontrivial=True):
         """fn() executes the real kernel on the case; an index fault is a failing input"""
         ctx = self.ctx
+        kernel = kernel + self.suffix
         ctx.case(dict(kernel=kernel, **case), nontrivial=nontrivial)
         ctx.count('kernel:' + kernel)
         try:
@@ -74,6 +76,47 @@ class Runner:
                          key='oob:' + kernel)
                 return None
             raise
+
+
+# ------------------------------------------------------------------------------------------ serial builds
+
+PAR_MODULES = ['abacusnbody.analysis.tsc', 'abacusnbody.analysis.power_spectrum', 'abacusnbody.hod.GRAND_HOD',
+               'abacusnbody.hod.abacus_hod']
+SERIAL_SUFFIX = ' [serial build, boundscheck=True]'
+
+
+class serial_checked:
+    """NUMBA_BOUNDSCHECK=1 does not instrument the *stores* inside the outlined body of a `prange` loop of a
+    parallel=True kernel (probed: `a[i] = 1` for i past the end returns silently; loads do raise).  So every
+    parallel=True kernel of the anchored modules is additionally compiled from the very same source (`py_func`) as a
+    serial kernel with boundscheck=True (prange degrades to range, the thread-block arithmetic is unchanged) and swapped
+    into its module for the duration of the block, so that Python-level callers (tsc_parallel, calc_power, gen_gal_cat)
+    reach the checked build."""
+
+    def __init__(self, ctx):
+        self.ctx = ctx
+        self.saved = []
+
+    def __enter__(self):
+        import importlib
+        import numba
+        from numba.core.registry import CPUDispatcher
+        names = []
+        for mn in PAR_MODULES:
+            M = importlib.import_module(mn)
+            for k, v in list(vars(M).items()):
+                if isinstance(v, CPUDispatcher) and v.targetoptions.get('parallel') and getattr(v, '__module__', None) == mn:
+                    ser = numba.njit(boundscheck=True, fastmath=bool(v.targetoptions.get('fastmath', False)))(v.py_func)
+                    self.saved.append((M, k, v))
+                    setattr(M, k, ser)
+                    names.append('%s.%s' % (mn.split('.')[-1], k))
+        self.ctx.extra['serial_boundscheck_builds'] = names
+        return self
+
+    def __exit__(self, *a):
+        for M, k, v in self.saved:
+            setattr(M, k, v)
+        return False
 
 
 # ------------------------------------------------------------------------------------------ kernels
@@ -387,6 +430,16 @@ def run(ctx):
     k_mass(R, rng, thorough)
     k_power(R, rng, thorough)
     k_hod(R, rng)
+    # the same boundary-directed cases once more on serial, fully bounds-checked builds of the parallel kernels
+    rng2 = np.random.default_rng([ctx.seed, 1111])
+    with serial_checked(ctx):
+        R.suffix = SERIAL_SUFFIX
+        try:
+            k_mass(R, rng2, thorough)
+            k_power(R, rng2, thorough)
+            k_hod(R, rng2)
+        finally:
+            R.suffix = ''
     ctx.extra['kernels_exercised'] = sorted(k[7:] for k in ctx.counters if k.startswith('kernel:'))
 
 
